@@ -64,6 +64,19 @@ def input_dialects(fps):
             t += [{'k': 'minus', 'n': fp['old']}, {'k': 'plus', 'n': fp['new']}]
         return t + hunks(fp)
     outs['git'] = [t for fp in fps for t in git(fp, False)]
+
+    def is_empty_file_patch(fp):
+        return fp['kind'] in ('C', 'D') and len(fp['hunks']) == 1 and not fp['hunks'][0]['old'] and not fp['hunks'][0]['new']
+    if any(is_empty_file_patch(fp) for fp in fps):
+        # the form git itself writes: header lines only, no ---/+++ pair and no hunk
+        def header_only(fp):
+            n = fp['new'] if fp['new'] != NULL else fp['old']
+            t = [{'k': 'git', 'o': n, 'n': n}]
+            t.append({'k': 'newfilemode', 'm': fp['nperm']} if fp['kind'] == 'C' else {'k': 'delmode', 'm': fp['operm']})
+            if fp['ohash'] != 'none':
+                t.append({'k': 'index', 'o': fp['ohash'], 'n': fp['nhash']})
+            return t
+        outs['git-header-only'] = [t for fp in fps for t in (header_only(fp) if is_empty_file_patch(fp) else git(fp, False))]
     outs['git-noise'] = [{'k': 'garb'}, {'k': 'empty'}] + [t for fp in fps for t in git(fp, True) + [{'k': 'empty'}]]
     if not gitonly:
         outs['plain'] = [t for fp in fps for t in [{'k': 'minus', 'n': fp['old']}, {'k': 'plus', 'n': fp['new']}] + hunks(fp)]
